@@ -165,7 +165,7 @@ theorem facts_shape :
         "from.Predicate != predID && from.Predicate > 0", "s.deletedDatasets[datasetID] || !datasetIncluded", "et > from.At",
         "from.Predicate != predID && from.Predicate > 0", "dsSeen || isAdded"]
     ∧ storeSteps = ["ds.WriteLock.Lock", "time.Sleep", "time.Now().UnixNano", "ds.StoreEntitiesWithTransaction", "ds.store.commitIDTxn", "txn.Commit", "ds.updateDataset"]
-    ∧ txnSteps = ["sort.Strings", "dataset.(*Dataset).WriteLock.Lock", "ds.StoreEntitiesWithTransaction", "s.commitIDTxn", "txn.Commit", "ds.(*Dataset).updateDataset"] := by decide
+    ∧ txnSteps = ["sort.Strings", "dataset.(*Dataset).WriteLock.Lock", "time.Now().UnixNano", "ds.StoreEntitiesWithTransaction", "s.commitIDTxn", "txn.Commit", "ds.(*Dataset).updateDataset"] := by decide
 
 -- non-vacuity: a later write does not change a pinned lookup, an earlier instant does not see it
 example : let e1 : Ent := ⟨1, false, [(5, 2)], "a"⟩; let e1' : Ent := ⟨1, true, [], "b"⟩
